@@ -3,7 +3,7 @@
 cd /verif
 claimed=$(python3 -c "import json;print(' '.join(c['property_id'] for c in json.load(open('MANIFEST.json'))['checks']))")
 out=seeded/matrix.txt; : > $out
-for d in seeded/C*-[ab]; do
+for d in seeded/C*-[a-d]; do
   p=$(basename $d | cut -d- -f1)
   case " $claimed " in *" $p "*) ;; *) echo "$(basename $d) not-claimed" >> $out; continue;; esac
   log=/tmp/seedrun_$(basename $d).log
